@@ -11,7 +11,7 @@ import ast
 from ..engine import rule
 from ..model import Undecided
 from ..cfg import dotted, call_name, is_call, simple_name, unparse, const_value, contains, enclosing, find_all
-from ..flow import expand, Defs, depends, try_const
+from ..flow import Canon, expand, Defs, depends, try_const
 from ..decide import table, ret_kind
 from ..util import calls_to, keyword, returns_of, calls_in, inside, order_key
 
@@ -246,8 +246,11 @@ def c06c(ctx):
     ok = len(writes) == 2 and len(tells) >= 1
     if ok:
         (n1, w1), (n2, w2) = writes
-        size_first = contains(w1, lambda x: is_call(x, 'pack')) and contains(w1, lambda x: is_call(x, 'len'))
-        data_second = w2.args and isinstance(w2.args[0], ast.Name) and w2.args[0].id in ap.params
+        cfa = Canon(ap)
+        a1 = cfa.expr(w1.args[0]) if w1.args else w1
+        a2 = cfa.expr(w2.args[0]) if w2.args else None
+        size_first = contains(a1, lambda x: is_call(x, 'pack')) and contains(a1, lambda x: is_call(x, 'len'))
+        data_second = isinstance(a2, ast.Name) and a2.id in ap.params
         tn = tells[0][0]
         between = g.dominates(n1, tn) and g.dominates(tn, n2) and n1 != tn != n2
         ret_tell = bool(rets) and all(depends(r.value, lambda x: is_call(x, 'tell'), defs) for r in rets)
@@ -279,11 +282,14 @@ def _last_def_before(fn, expr, at):
 
 def _write_order(ctx, fn, label):
     g = fn.cfg
-    writes = g.find(lambda x: is_call(x, 'self._fh.write', 'write'))
-    size_w = [(n, w) for n, w in writes if contains(w, lambda x: is_call(x, 'pack')) and
-              contains(w, lambda x: isinstance(x, ast.Constant) and x.value == '<L')]
-    data_w = [(n, w) for n, w in writes if w.args and isinstance(w.args[0], ast.Name) and w.args[0].id == 'data']
-    hdr_w = [(n, w) for n, w in writes if contains(w, lambda x: isinstance(x, ast.Name) and x.id == 'BUNDLE_V1_HEADER_STRUCT_FORMAT')]
+    cf = Canon(fn)
+    # what is written, in closed form (a value bound to a local first is followed)
+    writes = [(n, w, cf.expr(w.args[0]) if w.args else None) for n, w in g.find(lambda x: is_call(x, 'self._fh.write', 'write'))]
+    dparam = [p for p in fn.params if p == 'data'] or fn.params[-1:]
+    size_w = [(n, w) for n, w, a in writes if a is not None and contains(a, lambda x: is_call(x, 'pack')) and
+              contains(a, lambda x: isinstance(x, ast.Constant) and x.value == '<L')]
+    data_w = [(n, w) for n, w, a in writes if isinstance(a, ast.Name) and a.id in dparam]
+    hdr_w = [(n, w) for n, w, a in writes if a is not None and contains(a, lambda x: isinstance(x, ast.Name) and x.id == 'BUNDLE_V1_HEADER_STRUCT_FORMAT')]
     ok = len(size_w) == 1 and len(data_w) == 1 and g.dominates(size_w[0][0], data_w[0][0]) and size_w[0][0] != data_w[0][0]
     ctx.check(ok, label + ':size-then-data', 'the size word is written before the data', fn)
     ok = bool(hdr_w) and bool(data_w) and all(g.dominates(data_w[0][0], n) for n, _ in hdr_w)
